@@ -709,7 +709,7 @@ def run(ctx):
         ctx.count(['adjid', dom, ran, offs, mode, dtype], True)
         nadj += 1
     # 3c beyond the TLC constants + seeded random concretisations
-    dcalls = beyond_bounds(quick) + [driver_call(rnd) for _ in range(1500 if quick else 16000)]
+    dcalls = beyond_bounds(quick) + [driver_call(rnd) for _ in range(1200 if quick else 16000)]
     for cd in dcalls:
         y, err, nt, info = R.execute(cd)
         add_events([(cd, y, err, info.get('offs'))], 'resize_array' if cd['api'] == 'resize_array' else 'ResizingOperator',
@@ -729,7 +729,7 @@ def run(ctx):
                           'exported by TLC and replayed via ran_shp / default-offset / explicit-range construction',
         'drivers': 'operator geometry: all 1-d (m, n, offset|default) up to %d and %d 2-d mixtures (every second one with rotating boundary flags); adjoint identity on all admissible 1-d '
                    '(m, n, offset, mode) up to 5 and 2-d mixtures up to 3x3; 1-d sizes up to 12 with padding larger than the array; '
-                   '%d random calls in 1-3 d' % (5 if quick else 7, 60 if quick else 240, 1500 if quick else 16000)}
+                   '%d random calls in 1-3 d' % (5 if quick else 7, 100 if quick else 360, 1200 if quick else 16000)}
     ctx.extra['outside_the_statement'] = outside_statement_observations()
     ctx.exhaustive = True     # 1-d space n_in, n_out in 1..5 x offsets x modes x directions and the 2-d mixtures up to 3x3 are
     #                           enumerated completely by TLC; every exported case is replayed
